@@ -257,9 +257,9 @@ CHECKS["C03"] = dict(
     rule=("rapidcheck scenes on small destinations (1-40 x 1-12) of any destination format incl. a1/a4/c4/g1/24 bpp with padded and "
           "negative strides and fenced buffers: request rectangle inside/straddling/outside, zero and huge sizes, 16-bit extremes; "
           "dest clip of 1-6 boxes; dest alpha map with arbitrary origin; source and mask clips in all four (has_client_clip, "
-          "source_clipping) combinations placed to overlap in destination space; operators biased to those that change every pixel; "
+          "source_clipping) combinations placed to overlap in destination space; a quarter of the bits sources/masks with an alpha map (origin x != y) that carries its own clip in all four flag combinations; operators biased to those that change every pixel; "
           "entry points composite32, the 16-bit composite, pixman_compute_composite_region, fill_boxes/fill_rectangles (C19's oracle), composite_glyphs(_no_mask) (C17's oracle) and the trapezoid entry points (C12's harness on fenced canvases); clip regions include set-but-empty ones. Oracle: R = request ∩ bounds ∩ dest "
-          "clip ∩ alpha-map bounds ∩ enabled source/mask clips (translated), computed by the independent region model; every bit "
+          "clip ∩ alpha-map bounds ∩ enabled source/mask clips and enabled clips of their alpha maps (translated), computed by the independent region model; every bit "
           "of the destination storage and of the alpha map outside R is unchanged (sub-byte neighbours, padding); "
           "compute_composite_region returns TRUE iff R non-empty and exactly R in canonical form; SRC with an opaque solid sets "
           "every pixel of R; sources unmodified. Non-trivial = R non-empty, different from the request rectangle and with an edge "
